@@ -5,10 +5,16 @@ Model: Model/Ber.lean (lber parser with the depth limit and "overrun inside comp
 error"), Model/Envelope.lean (decode_inner).  In the code as it is now every `expect`/index of the
 decoding path has been replaced by an error return (fix: commits F1, F2, F4), so the model has
 three outcomes; that the REAL decoder has no fourth one (a panic) is what lane `hostile` checks.
+Driver level, at the end of this file (Model/Conn.lean): `C11_bad_search_frame_ends_connection` — a
+frame that decodes as an envelope but, arriving under the ID of a SEARCH, is neither a search item nor
+a well-formed SearchResultDone ends the driver with an error (fix F4) — and its composition with
+C04's whole-history theorem: after that step nobody is left waiting.
 -/
 import Ldap3V.Lemmas.FramingWF
 import Ldap3V.Lemmas.BerDepth
 import Ldap3V.Lemmas.EnvelopeShape
+import Ldap3V.Lemmas.ConnGaps
+import Ldap3V.Props.C04
 namespace Ldap3V
 open Spec
 
@@ -269,3 +275,87 @@ example : IsEnvelope (.cons 3 16 ([.prim 0 4 [0x41]] ++ [.prim 0 2 [0xFF, 0xFF, 
   .adTrailer 3 _ _ _ _ (-1) ⟨_, rfl, by decide, by decide, by decide⟩ rfl rfl
 
 end Ldap3V
+
+/-! ## driver level: a well-framed but wrong message under a search's ID -/
+namespace Ldap3V.Conn
+
+/-- A frame that arrives under the ID of a SEARCH (`searchmap` has an entry for `f.id`) and is neither
+a search item (protocolOp 4 SearchResultEntry, 19 SearchResultReference, 25 IntermediateResponse)
+nor a SearchResultDone carrying a well-formed LDAPResult cannot be turned into a `SearchItem`: the
+driver consumes it and ends with an error (fix F4) — for EVERY state. -/
+theorem C11_bad_search_frame_ends_connection (s : St) (f : Frame) (c : Nat) (hr : s.drv = .running)
+    (hf : s.srvLog[s.pos]? = some f) (hl : lookup s.searchmap f.id = some c)
+    (hitem : ¬ (f.op = 4 ∨ f.op = 25 ∨ f.op = 19)) (hdone : ¬ (f.op = 5 ∧ f.good = true)) :
+    step s .drvResp = some (endDriver { s with pos := s.pos + 1 } .endedErr, .none) :=
+  drvResp_bad_search s f c hr hf hl hitem hdone
+
+/-- **whole histories**: after ANY history, when the driver's next response step meets such a frame,
+the driver has ended with an error and nobody is left waiting: every call that queued its request
+and has not returned resolves at its next poll (with the response delivered earlier, or an error),
+and every started stream's `next()` returns an item queued earlier or `EndOfStream`.
+Composition of the step above with `C04_dead_connection_nobody_waits`. -/
+theorem C11_bad_search_frame_nobody_waits (N : Nat) (evs : List Ev) (hfr : FreshRun2 (init N) evs) (f : Frame) (c : Nat)
+    (hr : (run (init N) evs).drv = .running)
+    (hf : (run (init N) evs).srvLog[(run (init N) evs).pos]? = some f)
+    (hl : lookup (run (init N) evs).searchmap f.id = some c)
+    (hitem : ¬ (f.op = 4 ∨ f.op = 25 ∨ f.op = 19)) (hdone : ¬ (f.op = 5 ∧ f.good = true)) :
+    (run (init N) (evs ++ [.drvResp])).drv = .endedErr ∧
+    (∀ (i : Nat) (o : Op), (run (init N) (evs ++ [.drvResp])).ops[i]? = some o → o.phase ≠ .allocated → o.res = none →
+      ∃ r s', step (run (init N) (evs ++ [.drvResp])) (.poll i) = some (s', .res (some r)) ∧
+        (∀ g, o.mail = .frame g → r = if g.good then .frame g else .decodeErr) ∧ (o.mail = .ack → r = .ack) ∧
+        (o.mail = .dropped → r = .recvErr)) ∧
+    (∀ (c : Nat) (ch : Chan) (dl : Option Nat), (run (init N) (evs ++ [.drvResp])).chans[c]? = some ch →
+      ((run (init N) (evs ++ [.drvResp])).ops[ch.opIdx]?.bind (·.res)) = some .ack → ch.rxAlive = true →
+      (∃ it, ch.items[ch.taken]? = some it ∧
+        ∃ s', step (run (init N) (evs ++ [.drvResp])) (.recv c dl) = some (s', .item (some it))) ∨
+      (ch.items[ch.taken]? = none ∧
+        step (run (init N) (evs ++ [.drvResp])) (.recv c dl) = some (run (init N) (evs ++ [.drvResp]), .closed))) := by
+  have hd : (run (init N) (evs ++ [.drvResp])).drv = .endedErr := by
+    rw [run_snoc, next, C11_bad_search_frame_ends_connection _ f c hr hf hl hitem hdone]; rfl
+  have hfr' : FreshRun2 (init N) (evs ++ [.drvResp]) :=
+    freshRun2_append_nonalloc _ _ _ hfr (by intro e he; simp at he; subst he; rfl)
+  exact ⟨hd, C04_dead_connection_nobody_waits N _ hfr' (by rw [hd]; simp)⟩
+
+/-- the same for every history with at most `N` (= 2^31-1) allocations, with no schedule hypothesis -/
+theorem C11_bad_search_frame_nobody_waits_nowrap (N : Nat) (evs : List Ev) (hcount : allocCount evs ≤ N) (f : Frame) (c : Nat)
+    (hr : (run (init N) evs).drv = .running)
+    (hf : (run (init N) evs).srvLog[(run (init N) evs).pos]? = some f)
+    (hl : lookup (run (init N) evs).searchmap f.id = some c)
+    (hitem : ¬ (f.op = 4 ∨ f.op = 25 ∨ f.op = 19)) (hdone : ¬ (f.op = 5 ∧ f.good = true)) :
+    (run (init N) (evs ++ [.drvResp])).drv = .endedErr ∧
+    (∀ (i : Nat) (o : Op), (run (init N) (evs ++ [.drvResp])).ops[i]? = some o → o.phase ≠ .allocated → o.res = none →
+      ∃ r s', step (run (init N) (evs ++ [.drvResp])) (.poll i) = some (s', .res (some r)) ∧
+        (∀ g, o.mail = .frame g → r = if g.good then .frame g else .decodeErr) ∧ (o.mail = .ack → r = .ack) ∧
+        (o.mail = .dropped → r = .recvErr)) ∧
+    (∀ (c : Nat) (ch : Chan) (dl : Option Nat), (run (init N) (evs ++ [.drvResp])).chans[c]? = some ch →
+      ((run (init N) (evs ++ [.drvResp])).ops[ch.opIdx]?.bind (·.res)) = some .ack → ch.rxAlive = true →
+      (∃ it, ch.items[ch.taken]? = some it ∧
+        ∃ s', step (run (init N) (evs ++ [.drvResp])) (.recv c dl) = some (s', .item (some it))) ∨
+      (ch.items[ch.taken]? = none ∧
+        step (run (init N) (evs ++ [.drvResp])) (.recv c dl) = some (run (init N) (evs ++ [.drvResp]), .closed))) :=
+  C11_bad_search_frame_nobody_waits N evs (freshRun2_init N evs hcount) f c hr hf hl hitem hdone
+
+/-! ### non-vacuity (tests): a single call waiting, a search with one entry queued and started, then a
+BindResponse (op 1), resp. a malformed SearchResultDone, under the search's ID 2 -/
+def badSearchHistory (bad : Frame) : List Ev :=
+  [.alloc .single, .enqueue 0 none, .alloc .search, .enqueue 1 none, .drvOp true, .drvOp true, .poll 1,
+   .srvSend ⟨2, 4, 8, false⟩, .drvResp, .srvSend bad]
+
+example :
+    let s := run (init 100) (badSearchHistory ⟨2, 1, 9, true⟩)
+    allocCount (badSearchHistory ⟨2, 1, 9, true⟩) ≤ 100 ∧ s.drv = .running ∧ s.srvLog[s.pos]? = some ⟨2, 1, 9, true⟩ ∧
+    lookup s.searchmap (2 : Int) = some 0 := by decide
+
+example :
+    let s := run (init 100) (badSearchHistory ⟨2, 5, 9, false⟩)
+    allocCount (badSearchHistory ⟨2, 5, 9, false⟩) ≤ 100 ∧ s.drv = .running ∧ s.srvLog[s.pos]? = some ⟨2, 5, 9, false⟩ ∧
+    lookup s.searchmap (2 : Int) = some 0 := by decide
+
+/-- what the step leaves: the driver ended with an error, the waiting call's reply sender dropped,
+the stream with its queued entry and no sender -/
+example :
+    let s := run (init 100) (badSearchHistory ⟨2, 1, 9, true⟩ ++ [.drvResp])
+    s.drv = .endedErr ∧ s.ops.map (·.mail) = [.dropped, .ack] ∧ s.ops.map (·.res) = [none, some .ack] ∧
+    s.chans.map (·.items) = [[.entry ⟨2, 4, 8, false⟩]] ∧ chanOpen s 0 = false ∧ s.inUse = [] := by decide
+
+end Ldap3V.Conn
